@@ -164,10 +164,12 @@ fn tag_optional_children(
     if let Some(current_tag) = root.get_child(&to_str(e.name())?) {
         let parent = current_tag.inner_t();
 
-        for (child_name, child_count) in children_count.iter() {
-            if let Some(c) = parent.get_child(child_name) {
-                if child_count == &c.inner_t().count() {
-                    to_optional.push(child_name.clone());
+        // walk the children in their stored order (and not the HashMap), to not depend on the hash seed
+        for child in parent.children().iter() {
+            let c = child.inner_t();
+            if let Some(child_count) = children_count.get(&c.name) {
+                if child_count == &c.count() {
+                    to_optional.push(c.name.clone());
                 }
             }
         }
